@@ -47,6 +47,33 @@ describe(
 )
 
 
+IO = "core/discipline/io.py"
+
+
+def _all_input_data(ctx: Ctx, call: ast.AST, owner: str) -> bool:
+    """``call`` is ``<owner>.get_input_data()`` returning the input data under their own (namespaced) names: no
+    argument, or every argument given (by position or keyword) is the constant that the signature of
+    ``IO.get_input_data`` declares as its default."""
+    if not (isinstance(call, ast.Call) and isinstance(call.func, ast.Attribute) and call.func.attr == "get_input_data" and norm_stmt(call.func.value) == owner):
+        return False
+    if not call.args and not call.keywords:
+        return True
+    try:
+        sig = ctx.index.method(IO, "IO", "get_input_data").args
+    except Exception:  # noqa: BLE001
+        return False
+    params = [a.arg for a in sig.args][1:]
+    defaults = dict(zip(params[len(params) - len(sig.defaults):], sig.defaults))
+    defaults.update({a.arg: d for a, d in zip(sig.kwonlyargs, sig.kw_defaults) if d is not None})
+    if any(isinstance(a, ast.Starred) for a in call.args) or len(call.args) > len(params) or any(k.arg is None for k in call.keywords):
+        return False
+    given = list(zip(params, call.args)) + [(k.arg, k.value) for k in call.keywords]
+    return all(isinstance(v, ast.Constant) and isinstance(defaults.get(p), ast.Constant) and type(v.value) is type(defaults[p].value) and v.value == defaults[p].value for p, v in given)
+
+
+ROW, PAIRS = "<row of>", "<pairs of>"  # first component of the type of a local holding a whole row (dict / list of pairs)
+
+
 class BlockTyper:
     """K5: type ``(row key, column key)`` of nested-dict Jacobian expressions in one function."""
 
@@ -55,15 +82,23 @@ class BlockTyper:
         self.roots = roots
         self.locals: dict[str, tuple[str, str]] = {}
         self.problems: list[tuple[ast.AST, str]] = []
-        # loop variables bound by ``for k, v in ROOT[a].items()``
-        for s in stmts_of(func):
-            if isinstance(s, ast.For) and isinstance(s.iter, ast.Call) and last_attr(s.iter) == "items" and isinstance(s.target, ast.Tuple) and len(s.target.elts) == 2:
-                base = s.iter.func.value
-                if isinstance(base, ast.Subscript) and dotted(base.value) in roots:
-                    self.locals[dotted(s.target.elts[1])] = (norm_stmt(base.slice), dotted(s.target.elts[0]))
         conflicts: set[str] = set()
         for _ in range(8):  # bounded fixpoint (locals are chained at most a few levels deep)
             changed = False
+            # loop variables bound by ``for k, v in ROW.items()`` (ROW: ``ROOT[a]`` or a local row) and by
+            # ``for k, v in PAIRS`` (a local list of (key, block) pairs): v is the block (a, k)
+            for s in stmts_of(func):
+                if isinstance(s, ast.For) and isinstance(s.target, ast.Tuple) and len(s.target.elts) == 2 and all(isinstance(x, ast.Name) for x in s.target.elts):
+                    if isinstance(s.iter, ast.Call) and last_attr(s.iter) == "items" and isinstance(s.iter.func, ast.Attribute) and not s.iter.args:
+                        held = self.type_of(s.iter.func.value, record=False)
+                        held = held if held is not None and held[0] == ROW else None
+                    else:
+                        held = self.type_of(s.iter, record=False)
+                        held = held if held is not None and held[0] == PAIRS else None
+                    v = s.target.elts[1].id
+                    if held is not None and v not in self.locals:
+                        self.locals[v] = (held[1], s.target.elts[0].id)
+                        changed = True
             for s in stmts_of(func):
                 if isinstance(s, ast.Assign) and len(s.targets) == 1 and isinstance(s.targets[0], ast.Name):
                     name = s.targets[0].id
@@ -85,18 +120,33 @@ class BlockTyper:
             return self.locals.get(e.id)
         if isinstance(e, ast.Subscript) and isinstance(e.value, ast.Subscript) and dotted(e.value.value) in self.roots:
             return (norm_stmt(e.value.slice), norm_stmt(e.slice))
-        # ROOT[o].pop(k) / ROOT[o].get(k): the block (o, k)
-        if isinstance(e, ast.Call) and last_attr(e) in ("pop", "get") and e.args and isinstance(e.func, ast.Attribute) and isinstance(e.func.value, ast.Subscript) and dotted(e.func.value.value) in self.roots:
-            return (norm_stmt(e.func.value.slice), norm_stmt(e.args[0]))
+        # ROOT[o]: the row of o
+        if isinstance(e, ast.Subscript) and dotted(e.value) in self.roots:
+            return (ROW, norm_stmt(e.slice))
+        # ROW.pop(k) / ROW.get(k) (ROW: ROOT[o] or a local holding a row): the block (o, k)
+        if isinstance(e, ast.Call) and last_attr(e) in ("pop", "get") and e.args and isinstance(e.func, ast.Attribute):
+            row = self.type_of(e.func.value, record=False)
+            if row is not None and row[0] == ROW:
+                return (row[1], norm_stmt(e.args[0]))
+            return None
         # a row held in a local: {k: block(o, k) for k in ...} and row[k]
         if isinstance(e, ast.DictComp) and len(e.generators) == 1:
             t = self.type_of(e.value, record)
-            if t is not None and norm_stmt(e.key) == t[1]:
-                return ("row", t[0])
+            if t is not None and t[0] not in (ROW, PAIRS) and norm_stmt(e.key) == t[1]:
+                return (ROW, t[0])
             return None
+        # the same as a list of pairs: [(k, block(o, k)) for k in ...]
+        if isinstance(e, (ast.ListComp, ast.GeneratorExp)) and len(e.generators) == 1 and isinstance(e.elt, ast.Tuple) and len(e.elt.elts) == 2:
+            t = self.type_of(e.elt.elts[1], record)
+            if t is not None and t[0] not in (ROW, PAIRS) and norm_stmt(e.elt.elts[0]) == t[1]:
+                return (PAIRS, t[0])
+            return None
+        if isinstance(e, ast.Call) and dotted(e.func) in ("list", "tuple") and len(e.args) == 1 and not e.keywords:
+            t = self.type_of(e.args[0], record)
+            return t if t is not None and t[0] == PAIRS else None
         if isinstance(e, ast.Subscript) and isinstance(e.value, ast.Name):
             row = self.locals.get(e.value.id)
-            if row is not None and row[0] == "row":
+            if row is not None and row[0] == ROW:
                 return (row[1], norm_stmt(e.slice))
         if isinstance(e, ast.BinOp) and isinstance(e.op, ast.MatMult):
             return self._prod(e, e.left, e.right, record)
@@ -106,6 +156,8 @@ class BlockTyper:
             return self._prod(e, e.func.value, e.args[0], record)
         if isinstance(e, ast.BinOp) and isinstance(e.op, (ast.Add, ast.Sub)):
             a, b = self.type_of(e.left, record), self.type_of(e.right, record)
+            if (a and a[0] in (ROW, PAIRS)) or (b and b[0] in (ROW, PAIRS)):
+                return None
             if a and b and a != b and record:
                 self.problems.append((e, f"sum of blocks with different keys {a} and {b} in `{norm_stmt(e, 60)}`"))
             return a or b
@@ -115,7 +167,7 @@ class BlockTyper:
 
     def _prod(self, node, left, right, record):
         a, b = self.type_of(left, record), self.type_of(right, record)
-        if a is None or b is None:
+        if a is None or b is None or a[0] in (ROW, PAIRS) or b[0] in (ROW, PAIRS):
             return None
         if a[1] != b[0] and record:
             self.problems.append((node, f"product of block {a} by block {b} in `{norm_stmt(node, 60)}`: the inner keys differ (chain rule d out/d k . d k/d in needs the same k)"))
@@ -160,7 +212,21 @@ def check_reverse_chain_rule(ctx: Ctx) -> None:
         t = bt.type_of(p, record=True)
         msg = next((m for n, m in bt.problems if n is p), None)
         ctx.ob("9.1-product", con, msg is None and t is not None, msg or "the product could not be typed", node=p, slots={"type": str(t)})
-    # stores into self.jac[o][i]
+    # stores into self.jac[o][i]; the row self.jac[o] may be held in a local (assigned once)
+    n_defs: dict[str, int] = {}
+    for s in stmts_of(f):
+        for t_ in (s.targets if isinstance(s, ast.Assign) else [s.target] if isinstance(s, (ast.AugAssign, ast.AnnAssign, ast.For)) else []):
+            for x in ast.walk(t_):
+                if isinstance(x, ast.Name) and isinstance(x.ctx, ast.Store):
+                    n_defs[x.id] = n_defs.get(x.id, 0) + 1
+    row_alias = {s.targets[0].id: norm_stmt(s.value.slice) for s in stmts_of(f) if isinstance(s, ast.Assign) and len(s.targets) == 1 and isinstance(s.targets[0], ast.Name) and n_defs.get(s.targets[0].id) == 1 and isinstance(s.value, ast.Subscript) and dotted(s.value.value) == "self.jac"}
+
+    def row_key(e: ast.AST) -> str | None:
+        """o when ``e`` is the row ``self.jac[o]`` of the chain's Jacobian (in place or through its local)."""
+        if isinstance(e, ast.Subscript) and dotted(e.value) == "self.jac":
+            return norm_stmt(e.slice)
+        return row_alias.get(e.id) if isinstance(e, ast.Name) else None
+
     stores = []
     for s in stmts_of(f):
         tgt = None
@@ -168,16 +234,15 @@ def check_reverse_chain_rule(ctx: Ctx) -> None:
             tgt = s.targets[0]
         elif isinstance(s, ast.AugAssign):
             tgt = s.target
-        if isinstance(tgt, ast.Subscript) and isinstance(tgt.value, ast.Subscript) and dotted(tgt.value.value) == "self.jac":
+        if isinstance(tgt, ast.Subscript) and row_key(tgt.value) is not None:
             stores.append((s, tgt))
     ctx.need(len(stores) >= 3, "reverse_chain_rule: the three block stores (accumulate operator / accumulate array / plain) were not found")
     for s, tgt in stores:
-        want = (norm_stmt(tgt.value.slice), norm_stmt(tgt.slice))
+        want = (row_key(tgt.value), norm_stmt(tgt.slice))
         got = bt.type_of(s.value)
         ctx.ob("9.1-store-key", con, got == want, f"a block of keys {got} is stored at self.jac[{want[0]}][{want[1]}]", node=s, slots={"value": str(got), "slot": str(want)})
         n = cfg.node_of(s)
         # what is known, where the store runs, about "the block [o][i] already exists"
-        row_txt = f"self.jac[{want[0]}]"
         known, txt_pos, txt_neg = set(), set(), set()
         for t, v in branch_conditions(cfg, n):
             if cfg.kind[t] != "test":
@@ -185,10 +250,11 @@ def check_reverse_chain_rule(ctx: Ctx) -> None:
             for holds, e in _known_literals(cfg.ast[t].test, v):
                 (txt_pos if holds else txt_neg).add(norm_stmt(e))
                 cp = compare_parts(e)
-                if cp and cp[1] in (ast.In, ast.NotIn) and norm_stmt(cp[0]) == want[1] and norm_stmt(cp[2]) in (row_txt, row_txt + ".keys()"):
+                holder = cp[2].func.value if cp and isinstance(cp[2], ast.Call) and last_attr(cp[2]) == "keys" and isinstance(cp[2].func, ast.Attribute) and not cp[2].args else (cp[2] if cp else None)
+                if cp and cp[1] in (ast.In, ast.NotIn) and norm_stmt(cp[0]) == want[1] and row_key(holder) == want[0]:
                     known.add((cp[1] is ast.In) == holds)
         exists = known.pop() if len(known) == 1 else None
-        accumulates = isinstance(s, ast.AugAssign) or (isinstance(s.value, ast.BinOp) and isinstance(s.value.op, ast.Add) and any(isinstance(x, ast.Subscript) and norm_stmt(x) == norm_stmt(tgt) for x in ast.walk(s.value)))
+        accumulates = isinstance(s, ast.AugAssign) or (isinstance(s.value, ast.BinOp) and isinstance(s.value.op, ast.Add) and any(isinstance(x, ast.Subscript) and row_key(x.value) == want[0] and norm_stmt(x.slice) == want[1] for x in ast.walk(s.value)))
         if accumulates:
             ctx.ob("9.1-accumulate", con, exists is True, "a contribution is ADDED to the block exactly when the block already exists (whatever the inner variable: the blocks w.r.t. the variables computed by the discipline have been consumed before)", node=s, slots={"conditions": sorted(txt_pos)})
             if isinstance(s, ast.AugAssign):
@@ -196,12 +262,23 @@ def check_reverse_chain_rule(ctx: Ctx) -> None:
         else:
             ctx.ob("9.1-accumulate", con, exists is False, "a plain store is only right where the block does not exist yet: elsewhere it discards the contributions of the other paths", node=s, slots={"conditions": sorted(txt_pos), "negated": sorted(txt_neg)})
     # the blocks w.r.t. the variables the discipline computes are consumed (removed from the row) before composing
-    pops = [c for c in walk_body(f) if isinstance(c, ast.Call) and last_attr(c) == "pop" and isinstance(c.func.value, ast.Subscript) and dotted(c.func.value.value) == "self.jac"]
-    dels = [d for d in stmts_of(f) if isinstance(d, ast.Delete) and any(isinstance(t_, ast.Subscript) and isinstance(t_.value, ast.Subscript) and dotted(t_.value.value) == "self.jac" for t_ in d.targets)]
+    pops = [c for c in walk_body(f) if isinstance(c, ast.Call) and last_attr(c) == "pop" and isinstance(c.func, ast.Attribute) and row_key(c.func.value) is not None]
+    dels = [d for d in stmts_of(f) if isinstance(d, ast.Delete) and any(isinstance(t_, ast.Subscript) and row_key(t_.value) is not None for t_ in d.targets)]
     ok = bool(pops or dels)
     if ok and stores:
         first_store = min(cfg.node_of(s_) for s_, _ in stores)
-        rm = [cfg.node_of(rules.enclosing_stmt(f, c)) for c in pops] + [cfg.node_of(d) for d in dels]
+
+        def where(st: ast.stmt) -> int:
+            """Where the removal takes place: the statement, or the loop ``for k in S: <remove [k]>`` of which it is
+            the whole body (the removal of every key of S, like the comprehension over S)."""
+            for lp in stmts_of(f):
+                if isinstance(lp, ast.For) and isinstance(lp.target, ast.Name) and len(lp.body) == 1 and lp.body[0] is st and not lp.orelse:
+                    keys = [t_.slice for t_ in st.targets if isinstance(t_, ast.Subscript)] if isinstance(st, ast.Delete) else [c.args[0] for c in ast.walk(st) if isinstance(c, ast.Call) and last_attr(c) == "pop" and c.args]
+                    if keys and all(isinstance(k_, ast.Name) and k_.id == lp.target.id for k_ in keys):
+                        return cfg.node_of(lp)
+            return cfg.node_of(st)
+
+        rm = [where(rules.enclosing_stmt(f, c)) for c in pops] + [where(d) for d in dels]
         ok = all(cfg.path(first_store, r_) is None or cfg.dominates(r_, first_store) for r_ in rm) and any(cfg.dominates(r_, first_store) for r_ in rm)
     ctx.ob("9.1-consume", con, ok, "the derivatives of an output with respect to the variables that the discipline COMPUTES must be removed from the row (they are replaced by their chain-rule products) before any contribution is stored: kept, they give wrong derivatives for overwritten variables and for disciplines updating several of their inputs", node=(pops or dels or [f])[0], stmt="blocks w.r.t. the discipline's outputs consumed before composing")
     # the plain store is the else of the accumulation test
@@ -220,7 +297,7 @@ def check_reverse_chain_rule(ctx: Ctx) -> None:
     if lin:
         pt = lin[0].args[0] if lin[0].args else kwarg(lin[0], "input_data")
         alts = (unfolded(f, pt) or [pt]) if pt is not None else []
-        ok = bool(alts) and all(isinstance(a_, ast.Call) and last_attr(a_) == "get_input_data" and norm_stmt(a_.func).startswith("discipline.io.") and not a_.args for a_ in alts)
+        ok = bool(alts) and all(_all_input_data(ctx, a_, "discipline.io") for a_ in alts)
         ctx.ob("9.6-linearization-point", con, ok, "a discipline of the chain must be linearised at ITS OWN last inputs (discipline.io.get_input_data()), the point at which it was executed, not at the data of the chain after the following disciplines ran", node=lin[0], stmt="discipline.linearize(<its own last inputs>)")
     # curr_jac read from the chain before the loop over new inputs (reference to the block being replaced)
     ctx.floor("9.1-store-key", 3)
@@ -323,6 +400,156 @@ def _eval_disciplines(e: ast.AST, seq: list):
     raise _NotASelection(norm_stmt(e))
 
 
+def _in_chain_order(func, loop: ast.For) -> bool:
+    """The loop visits every discipline of ``self.disciplines`` once, from the first to the last: over the sequence
+    itself (possibly copied / sliced as a whole) or over ``enumerate`` of it with the discipline as second target."""
+    it = loop.iter
+    if isinstance(it, ast.Call) and dotted(it.func) == "enumerate" and len(it.args) == 1 and all(k.arg == "start" for k in it.keywords):
+        if not (isinstance(loop.target, ast.Tuple) and len(loop.target.elts) == 2 and isinstance(loop.target.elts[1], ast.Name)):
+            return False
+        it = it.args[0]
+    elif not isinstance(loop.target, ast.Name):
+        return False
+    try:
+        return all(_eval_disciplines(a, list(range(n_))) == list(range(n_)) for a in (unfolded(func, it) or [it]) for n_ in range(1, 5))
+    except (_NotASelection, IndexError):
+        return False
+
+
+def _overwrites_entries(node: ast.AST, mapping: str) -> bool:
+    """``node`` stores entries into ``mapping`` so that a key already there takes the new value: ``mapping.update(..)``,
+    ``mapping[k] = v``, ``mapping |= ..`` (not ``setdefault``, which keeps the first value)."""
+    if isinstance(node, ast.Call):
+        return isinstance(node.func, ast.Attribute) and node.func.attr == "update" and norm_stmt(node.func.value) == mapping
+    if isinstance(node, ast.Assign):
+        return any(isinstance(t, ast.Subscript) and norm_stmt(t.value) == mapping for t in node.targets)
+    if isinstance(node, ast.AugAssign):
+        return isinstance(node.op, ast.BitOr) and norm_stmt(node.target) == mapping
+    return False
+
+
+def _shallow_copied(func, e: ast.AST) -> ast.AST | None:
+    """The mapping of which ``e`` is a new dictionary with the same entries (at least a shallow copy), else None:
+    ``dict(m)``, ``dict(**m)``, ``dict(m.items())``, ``m.copy()``, ``copy(m)``, ``{**m}``, ``{k: v for k, v in m.items()}``
+    and the deep copies of :func:`_deep_copied`."""
+    if isinstance(e, ast.Call) and dotted(e.func) == "dict":
+        if len(e.args) == 1 and not e.keywords:
+            a = e.args[0]
+            if isinstance(a, ast.Call) and last_attr(a) == "items" and isinstance(a.func, ast.Attribute) and not a.args and not a.keywords:
+                return a.func.value
+            return a if isinstance(a, (ast.Name, ast.Attribute, ast.Subscript)) else None
+        if not e.args and len(e.keywords) == 1 and e.keywords[0].arg is None:
+            return e.keywords[0].value
+        return None
+    if isinstance(e, ast.Call) and isinstance(e.func, ast.Attribute) and e.func.attr == "copy" and not e.args and not e.keywords and dotted(e.func.value) not in ("copy",):
+        return e.func.value
+    if isinstance(e, ast.Call) and dotted(e.func) in ("copy", "copy.copy") and len(e.args) == 1 and not e.keywords:
+        return e.args[0]
+    if isinstance(e, ast.Dict) and len(e.keys) == 1 and e.keys[0] is None:
+        return e.values[0]
+    if isinstance(e, ast.DictComp) and len(e.generators) == 1 and not e.generators[0].ifs:
+        g = e.generators[0]
+        if isinstance(g.target, ast.Tuple) and len(g.target.elts) == 2 and isinstance(g.iter, ast.Call) and last_attr(g.iter) == "items" and isinstance(g.iter.func, ast.Attribute) and not g.iter.args and [norm_stmt(e.key), norm_stmt(e.value)] == [norm_stmt(x) for x in g.target.elts]:
+            return g.iter.func.value
+    return _deep_copied(func, e)
+
+
+def _without_none(func, it: ast.AST, var: str | None = None) -> tuple[ast.AST, bool]:
+    """``(X, True)`` when ``it`` enumerates, in order, the elements of X that are not None (``filter(None, X)``,
+    ``[j for j in X if j is not None]`` / ``if j``), else ``(it, False)``."""
+    if isinstance(it, ast.Call) and dotted(it.func) == "filter" and len(it.args) == 2 and not it.keywords and const_value(it.args[0], 0) is None:
+        return it.args[1], True
+    if isinstance(it, (ast.ListComp, ast.GeneratorExp)) and len(it.generators) == 1 and isinstance(it.generators[0].target, ast.Name) and norm_stmt(it.elt) == it.generators[0].target.id and it.generators[0].ifs:
+        j = it.generators[0].target.id
+        lits = [l_ for c in it.generators[0].ifs for l_ in conj_literals(c)]
+        if all((pol, norm_stmt(e)) in ((True, f"{j} is not None"), (False, f"{j} is None"), (True, j)) for pol, e in lits):
+            return it.generators[0].iter, True
+    return it, False
+
+
+def _rows_replaced_in_order(g) -> tuple[bool, list, list]:
+    """MDOParallelChain._compute_jacobian: for each discipline Jacobian returned by ``self.parallel_lin.execute``, in
+    that order, and each of its (output, row), the entry [output] of the composite Jacobian is overwritten by a new
+    dictionary holding the entries of that row; the only condition is that the discipline has a Jacobian.
+
+    The composite Jacobian is ``self.jac`` or a local that is (unconditionally) assigned to ``self.jac``; the entry is
+    written by ``J[o] = copy`` in a loop over the items / the keys of the discipline Jacobian, or by
+    ``J.update({o: copy for ...})`` over the same.  Returns (verdict, entry writes, other merges).
+    """
+    cg = cfg_of(g)
+    holders = {"self.jac"}
+    for s in stmts_of(g):
+        if isinstance(s, ast.Assign) and len(s.targets) == 1 and dotted(s.targets[0]) == "self.jac" and isinstance(s.value, ast.Name):
+            defs = [d for d in stmts_of(g) if isinstance(d, (ast.Assign, ast.AugAssign, ast.AnnAssign)) and any(isinstance(t, ast.Name) and t.id == s.value.id for t in (d.targets if isinstance(d, ast.Assign) else [d.target]))]
+            if len(defs) == 1 and cg.must_pass(cg.entry, {cg.node_of(s)}):
+                holders.add(s.value.id)
+    # the results of the linearisations, in the order of the disciplines
+    def from_execute(x: ast.AST) -> bool:
+        alts = unfolded(g, x) or [x]
+        if all(isinstance(a, ast.Call) and norm_stmt(a.func) == "self.parallel_lin.execute" for a in alts):
+            return True
+        return isinstance(x, ast.Name) and any(isinstance(s, ast.Assign) and isinstance(s.value, ast.Call) and norm_stmt(s.value.func) == "self.parallel_lin.execute" and [dotted(t) for t in s.targets] == [x.id] for s in stmts_of(g))
+
+    jl = []
+    for s in stmts_of(g):
+        if isinstance(s, ast.For) and isinstance(s.target, ast.Name):
+            if from_execute(_without_none(g, s.iter)[0]) or all(from_execute(_without_none(g, a)[0]) for a in (unfolded(g, s.iter) or [s.iter])):
+                jl.append(s)
+    # every way an entry gets into the composite Jacobian: (statement, key, value, (target, iter) of the enumeration)
+    def touches(e: ast.AST) -> bool:
+        return any(isinstance(x, (ast.Name, ast.Attribute)) and dotted(x) in holders for x in ast.walk(e))
+
+    writes, merges = [], []
+    for s in stmts_of(g):
+        if isinstance(s, ast.Assign) and any(isinstance(t, ast.Subscript) and dotted(t.value) in holders for t in s.targets):
+            writes.append((s, s.targets[0].slice if len(s.targets) == 1 else None, s.value, None))
+        elif isinstance(s, ast.AugAssign) and dotted(s.target) in holders:
+            merges.append(s)
+    for c in walk_body(g):
+        if isinstance(c, ast.Call) and isinstance(c.func, ast.Attribute) and c.func.attr in ("update", "setdefault", "__setitem__"):
+            recv = c.func.value
+            on_holder = dotted(recv) in holders
+            on_row = touches(recv) or (isinstance(recv, ast.Name) and any(isinstance(s, ast.Assign) and dotted(s.targets[0]) == recv.id and touches(s.value) for s in stmts_of(g)))
+            if on_holder and c.func.attr == "update" and len(c.args) == 1 and not c.keywords:
+                arg = c.args[0]
+                alts = unfolded(g, arg) or [arg]
+                if len(alts) == 1 and isinstance(alts[0], ast.DictComp) and len(alts[0].generators) == 1 and not alts[0].generators[0].ifs:
+                    dc = alts[0]
+                    writes.append((rules.enclosing_stmt(g, c), dc.key, dc.value, (dc.generators[0].target, dc.generators[0].iter)))
+                    continue
+            if on_holder or on_row:
+                merges.append(c)
+    news = [w[0] for w in writes]
+    if len(jl) != 1 or len(writes) != 1 or merges:
+        return False, news, merges
+    stmt, key, value, enum = writes[0]
+    if key is None or not any(x is stmt for x in ast.walk(jl[0])):
+        return False, news, merges
+    if enum is None:
+        inner = [x for x in ast.walk(jl[0]) if isinstance(x, ast.For) and x is not jl[0] and any(y is stmt for y in ast.walk(x))]
+        if len(inner) != 1:
+            return False, news, merges
+        enum = (inner[0].target, inner[0].iter)
+    jv = jl[0].target.id
+    target, it = enum
+    rows = set()
+    if isinstance(target, ast.Tuple) and len(target.elts) == 2 and all(isinstance(x, ast.Name) for x in target.elts) and isinstance(it, ast.Call) and last_attr(it) == "items" and isinstance(it.func, ast.Attribute) and dotted(it.func.value) == jv and not it.args:
+        k = target.elts[0].id
+        rows = {target.elts[1].id, f"{jv}[{k}]"}
+    elif isinstance(target, ast.Name) and _keys_of(it) == jv:
+        k = target.id
+        rows = {f"{jv}[{k}]"}
+    else:
+        return False, news, merges
+    alts = unfolded(g, value) or [value]
+    copied = [_shallow_copied(g, a) for a in alts]
+    fresh = bool(copied) and all(c is not None and norm_stmt(c) in rows for c in copied)
+    # the only condition allowed on the replacement is "this discipline has a Jacobian" (a failed one has None)
+    guards = [norm_stmt(cg.ast[tv[0]].test) + ("" if tv[1] else " [false]") for tv in branch_conditions(cg, cg.node_of(stmt)) if cg.kind[tv[0]] == "test"]
+    ok = dotted(key) == k and fresh and all(g_ in (f"{jv} is None [false]", f"{jv} is not None", f"{jv}") for g_ in guards)
+    return ok, news, merges
+
+
 def check_compute_jacobian(ctx: Ctx) -> None:
     f = ctx.index.method(CH, "MDOChain", "_compute_jacobian")
     con = cname(CH, "MDOChain", "_compute_jacobian")
@@ -359,26 +586,10 @@ def check_compute_jacobian(ctx: Ctx) -> None:
     _check_zero_fill(ctx, g, cname(PC, "MDOParallelChain", "_compute_jacobian"), after=[])
     # parallel chain: value and Jacobian of an output computed by several disciplines come from the same (last) one
     ex = ctx.index.method(PC, "MDOParallelChain", "_execute")
-    loops_e = [s for s in stmts_of(ex) if isinstance(s, ast.For) and norm_stmt(s.iter) == "self.disciplines"]
-    ok_e = len(loops_e) == 1 and any(isinstance(c, ast.Call) and norm_stmt(c.func) == "self.io.data.update" for c in ast.walk(loops_e[0]))
+    loops_e = [s for s in stmts_of(ex) if isinstance(s, ast.For) and _in_chain_order(ex, s)]
+    ok_e = len(loops_e) == 1 and any(_overwrites_entries(c, "self.io.data") for c in ast.walk(loops_e[0]))
     ctx.ob("9.3-last-wins", cname(PC, "MDOParallelChain", "_execute"), ok_e, "the outputs are taken discipline by discipline in the order of self.disciplines (the last one computing a name defines it)", node=(loops_e or [ex])[0], stmt="outputs updated in discipline order")
-    src = [s for s in stmts_of(g) if isinstance(s, ast.Assign) and isinstance(s.value, ast.Call) and norm_stmt(s.value.func) == "self.parallel_lin.execute"]
-    jl = [s for s in stmts_of(g) if isinstance(s, ast.For) and src and dotted(s.iter) == dotted(src[0].targets[0])]
-    news = [s for s in stmts_of(g) if isinstance(s, ast.Assign) and isinstance(s.targets[0], ast.Subscript) and dotted(s.targets[0].value) == "self.jac"]
-    merges = [c for c in walk_body(g) if isinstance(c, ast.Call) and last_attr(c) in ("update", "setdefault") and (dotted(c.func.value) == "self.jac" or any(isinstance(s, ast.Assign) and dotted(s.targets[0]) == dotted(c.func.value) and "self.jac" in norm_stmt(s.value) for s in stmts_of(g)))]
-    cg = cfg_of(g)
-    ok = len(jl) == 1 and len(news) == 1 and not merges
-    if ok:
-        inner = [s for s in ast.walk(jl[0]) if isinstance(s, ast.For) and s is not jl[0]]
-        ok = len(inner) == 1 and isinstance(inner[0].target, ast.Tuple) and news[0] in list(ast.walk(inner[0]))
-        if ok:
-            oname, ojac = (dotted(e) for e in inner[0].target.elts)
-            v = news[0].value
-            fresh = (isinstance(v, ast.Call) and dotted(v.func) == "dict" and len(v.args) == 1 and dotted(v.args[0]) == ojac) or (isinstance(v, ast.Call) and last_attr(v) == "copy" and dotted(v.func.value) == ojac) or (isinstance(v, ast.Dict) and len(v.keys) == 1 and v.keys[0] is None and dotted(v.values[0]) == ojac) or (isinstance(v, ast.DictComp) and len(v.generators) == 1 and not v.generators[0].ifs and isinstance(v.generators[0].target, ast.Tuple) and len(v.generators[0].target.elts) == 2 and norm_stmt(v.generators[0].iter) == f"{ojac}.items()" and [norm_stmt(v.key), norm_stmt(v.value)] == [norm_stmt(x) for x in v.generators[0].target.elts]) or (_deep_copied(g, v) is not None and dotted(_deep_copied(g, v)) == ojac)
-            # the only condition allowed on the replacement is "this discipline has a Jacobian" (a failed one has None)
-            guards = [norm_stmt(cg.ast[tv[0]].test) + ("" if tv[1] else " [false]") for tv in branch_conditions(cg, cg.node_of(news[0])) if cg.kind[tv[0]] == "test"]
-            jv = dotted(jl[0].target)
-            ok = dotted(news[0].targets[0].slice) == oname and fresh and all(g_ in (f"{jv} is None [false]", f"{jv} is not None", f"{jv}") for g_ in guards)
+    ok, news, merges = _rows_replaced_in_order(g)
     ctx.ob("9.3-last-wins", cname(PC, "MDOParallelChain", "_compute_jacobian"), bool(ok), "the Jacobian row of an output must be REPLACED by (a copy of) the row of each later discipline computing it, in the order of the disciplines: merging rows keeps blocks of a discipline whose value was overwritten; aliasing the discipline's own row lets the zero filling write into it", node=(news or merges or [g])[0], stmt="row of the last discipline replaces the previous one (copied)")
     # additive chain
     h = ctx.index.method(AC, "MDOAdditiveChain", "_compute_jacobian")
@@ -696,7 +907,7 @@ def check_mda_chain_point(ctx: Ctx) -> None:
     ctx.need(len(lin) == 1, "MDAChain._compute_jacobian: self.mdo_chain.linearize not found")
     pt = lin[0].args[0] if lin[0].args else kwarg(lin[0], "input_data")
     alts = (unfolded(f, pt) or [pt]) if pt is not None else []
-    ok = bool(alts) and all(isinstance(a_, ast.Call) and norm_stmt(a_.func) == "self.io.get_input_data" and not a_.args for a_ in alts)
+    ok = bool(alts) and all(_all_input_data(ctx, a_, "self.io") for a_ in alts)
     ctx.ob("9.6-linearization-point", con, ok, "the inner chain must be linearised at the inputs of the MDA chain", node=lin[0], stmt="mdo_chain.linearize(self.io.get_input_data())")
     ex = kwarg(lin[0], "execute")
     ok = ex is None or const_value(ex, None) is True
